@@ -162,6 +162,17 @@ def evaluate(ctx, case):
         Pin = [p.copy() for p in P]
         for p in Pin:
             p.flags.writeable = False
+        # the three points in every container a caller may use: a list of three arrays, ONE (3, 3) float64
+        # array (what ExchangeMap itself passes for 1-/2-atom references; np.asarray of it is the caller's own
+        # array, so an in-place "pos[1:] -= pos[0]" would write into it — seed C17-6)
+        container = int(abs(P[0][0]) * 1e6 + abs(P[2][1]) * 1e3) % 2
+        if container == 1:
+            arr = np.array(P, dtype=np.float64)
+            arr.flags.writeable = False
+            Pin = arr
+            ctx.count("frame-input:one-3x3-array")
+        else:
+            ctx.count("frame-input:list-of-arrays")
         err = None
         try:
             with np.errstate(all="ignore"):
@@ -190,7 +201,7 @@ def evaluate(ctx, case):
                     fails.append("third-not-normal")
             if not np.array_equal(o, P[0]):
                 fails.append("origin")
-            if any(not np.array_equal(a, b) for a, b in zip(Pin, P)):
+            if any(not np.array_equal(np.asarray(a, dtype=float), b) for a, b in zip(Pin, P)):
                 fails.append("inputs-modified")
         ctx.oracle_ok(6)
         for f in fails:
